@@ -20,6 +20,7 @@ VARIABLES view, done
 ovars == <<view, done>>
 
 T0 == 100 * 4          \* roEdStart: 100 s after the base instant
+Zone(z) == z * 134217728       \* 2^27: the UTC-offset designator of a time (0 none, 1 "Z", 2 "+01:00")
 
 TShape(md, sd, tt, mt, st, en) == [md |-> md, sd |-> sd, tt |-> tt, mt |-> mt, st |-> st, en |-> en]
 TShapes(i) ==
@@ -35,7 +36,9 @@ TShapes(i) ==
     TShape("payload", Some(20 + i), Some(400), Nil, Nil, Nil),
     TShape("payload", Some(24), Nil, Nil, Some(4000 + 40*i), Nil),
     TShape("payload", Some(24), Nil, Nil, Nil, Some(8000 + 40*i)),
-    TShape("payload", Nil, Nil, Nil, Some(4000 + 40*i), Some(4100 + 40*i)) }
+    TShape("payload", Nil, Nil, Nil, Some(4000 + 40*i), Some(4100 + 40*i)),
+    TShape("payload", Some(24), Nil, Nil, Some(Zone(1) + 4000 + 40*i), Nil),          \* explicit times with a UTC offset
+    TShape("payload", Nil, Nil, Nil, Some(Zone(2) + 4000 + 40*i), Some(Zone(2) + 4100 + 40*i)) }
 
 ItemView(id, full) ==
   [id |-> id, slug |-> "slug " \o id,
@@ -58,14 +61,18 @@ StoryV(id, sh, body) ==
 SId(i) == "S" \o ToString(i)
 DefaultBody(i) == << P(<<72, 105, 32>> \o <<48 + i>>), It("I1"), P(<<40, 110, 111, 116, 101, 41>>), It("I2") >>
 
+(* story `blank` (0 = none) has a blank storyID                            *)
 TimingViews ==
-  UNION { { [edstart |-> ed, exact |-> TRUE,
-             stories |-> [i \in 1..n |-> StoryV(SId(i), f[i], DefaultBody(i))]]
-              : f \in { g \in [1..n -> UNION { TShapes(j) : j \in 1..n }] : \A i \in 1..n : g[i] \in TShapes(i) } }
-          : n \in 0..MaxN, ed \in {Nil, Some(T0)} }
+  UNION { UNION { { [edstart |-> ed, exact |-> TRUE,
+                     stories |-> [i \in 1..n |-> StoryV(IF i = blank THEN NoneS ELSE SId(i), f[i], DefaultBody(i))]]
+                      : f \in { g \in [1..n -> UNION { TShapes(j) : j \in 1..n }] : \A i \in 1..n : g[i] \in TShapes(i) } }
+                  : ed \in {Nil, Some(T0), Some(Zone(1) + T0)}, blank \in 0..n }
+          : n \in 0..MaxN }
 
 Alphabet == {32, 9, 10, 160, 40, 41, 60, 62, 97}      \* space tab newline nbsp ( ) < > a
-Texts == UNION { [1..k -> Alphabet] : k \in 0..MaxLen }
+(* carriage return, thin space, full-width ( ), a combining accent: one character shorter *)
+Extra == {13, 8201, 65288, 65289, 769}
+Texts == UNION { [1..k -> Alphabet] : k \in 0..MaxLen } \cup UNION { [1..k -> Alphabet \cup Extra] : k \in 0..(MaxLen - 1) }
 DurShape == TShape("payload", Some(20), Nil, Nil, Nil, Nil)
 
 BodyElems == { P(<<97, 32, 98>>), P(<<>>), P(<<32, 40, 120, 41>>), It("I1"), It("I2"), Other }
